@@ -28,7 +28,9 @@ var c04Names = []string{"a", "b", "c", "d", "e", "f", "g", "h", "i", "j", "k", "
 
 // c04Case describes an operator chain: operand i has prefix unaries Pre[i];
 // Ops[i] stands between operand i and i+1 (for is / is not the right operand is
-// a test name). Cond: 0 none, 1 "? x : y", 2 "? x : y ? z : w", 3 "? x + y : z".
+// a test name). Cond: 0 none, 1 "? x : y", 2 "? x : y ? z : w", 3 "? x + y : z",
+// 4 / 5 ladders of three / four rungs, 6 conditionals in both branches, 7 a
+// ladder with operators inside its rungs.
 type c04Case struct {
 	Ops    []string   `json:"ops"`
 	Pre    [][]string `json:"pre,omitempty"`
@@ -74,6 +76,19 @@ func (cs *c04Case) tokens() []c04tok {
 		toks = append(toks, c04tok{"?", "?"}, name(), c04tok{":", ":"}, name(), c04tok{"?", "?"}, name(), c04tok{":", ":"}, name())
 	case 3:
 		toks = append(toks, c04tok{"?", "?"}, name(), c04tok{"op", "+"}, name(), c04tok{":", ":"}, name())
+	case 4, 5:
+		// an else-if ladder of 3 (4) rungs
+		toks = append(toks, c04tok{"?", "?"}, name())
+		for k := 0; k < cs.Cond-2; k++ {
+			toks = append(toks, c04tok{":", ":"}, name(), c04tok{"?", "?"}, name())
+		}
+		toks = append(toks, c04tok{":", ":"}, name())
+	case 6:
+		// a conditional in the true branch, another in the else branch
+		toks = append(toks, c04tok{"?", "?"}, name(), c04tok{"?", "?"}, name(), c04tok{":", ":"}, name(), c04tok{":", ":"}, name(), c04tok{"?", "?"}, name(), c04tok{":", ":"}, name())
+	case 7:
+		// operators inside the rungs of a ladder
+		toks = append(toks, c04tok{"?", "?"}, name(), c04tok{":", ":"}, name(), c04tok{"op", "or"}, name(), c04tok{"?", "?"}, name(), c04tok{"op", "~"}, name(), c04tok{":", ":"}, name(), c04tok{"op", "=="}, name(), c04tok{"?", "?"}, name(), c04tok{":", ":"}, name())
 	}
 	return toks
 }
@@ -335,7 +350,7 @@ func init() {
 								}
 							}
 						}
-						for cond := 1; cond <= 3; cond++ {
+						for cond := 1; cond <= 7; cond++ {
 							emit(&c04Case{Ops: append([]string(nil), ops...), Cond: cond})
 						}
 					}
@@ -362,7 +377,7 @@ func init() {
 
 		gen := func(t *rapid.T) *c04Case {
 			n := rapid.IntRange(2, 12).Draw(t, "n")
-			cs := &c04Case{Cond: rapid.SampledFrom([]int{0, 0, 1, 2, 3}).Draw(t, "cond")}
+			cs := &c04Case{Cond: rapid.SampledFrom([]int{0, 0, 1, 2, 3, 4, 5, 6, 7}).Draw(t, "cond")}
 			cs.Pre = make([][]string, n+1)
 			for i := 0; i < n; i++ {
 				cs.Ops = append(cs.Ops, rapid.SampledFrom(c04Ops).Draw(t, "op"))
